@@ -59,6 +59,8 @@ type posRunner struct {
 	anyOK      bool
 	setChanged bool
 	outcome    []string
+	qAwards    map[string]*big.Int // the model's own award and burn queues (see model())
+	qBurns     map[string]*big.Int
 	inPrelude  bool
 }
 
@@ -374,12 +376,37 @@ func evsOf(req abci.RequestBeginBlock) []posmodel.Ev {
 	return es
 }
 
+// model re-anchors the reference model on the state the implementation is in, except for the award
+// and burn queues: those are the model's own (they are filled only by the events the harness
+// injects and emptied by the model's BeginBlock), so an order the implementation fails to consume,
+// or consumes twice, shows in what it does to stakes and supply later and not only in the queue.
+func (r *posRunner) model() *posmodel.State {
+	want := posmodel.FromView(r.cur)
+	if r.qAwards != nil {
+		want.Awards, want.Burns = cloneQ(r.qAwards), cloneQ(r.qBurns)
+	}
+	return want
+}
+
+func (r *posRunner) keepQueues(want *posmodel.State) {
+	r.qAwards, r.qBurns = cloneQ(want.Awards), cloneQ(want.Burns)
+}
+
+func cloneQ(m map[string]*big.Int) map[string]*big.Int {
+	out := map[string]*big.Int{}
+	for k, v := range m {
+		out[k] = new(big.Int).Set(v)
+	}
+	return out
+}
+
 func (r *posRunner) hooks() *chain.Hooks {
 	return &chain.Hooks{
 		AfterBegin: func(d *chain.Driver, req abci.RequestBeginBlock) {
 			r.height, r.now = req.Header.Height, req.Header.Time
-			want := posmodel.FromView(r.cur)
+			want := r.model()
 			want.SpecBeginBlock(req.Header.Height, req.Header.Time, string(req.Header.ProposerAddress), votesOf(req), evsOf(req))
+			r.keepQueues(want)
 			after := r.view()
 			r.compare("BeginBlock", want, after)
 			r.invariants("BeginBlock", after, want.Notes)
@@ -388,7 +415,7 @@ func (r *posRunner) hooks() *chain.Hooks {
 			r.res.Transitions++
 		},
 		AfterEvent: func(d *chain.Driver, i int, e chain.Event, tr *chain.TxResult) {
-			want := posmodel.FromView(r.cur)
+			want := r.model()
 			call := "ev:" + e.Kind
 			switch e.Kind {
 			case "tx":
@@ -454,6 +481,7 @@ func (r *posRunner) hooks() *chain.Hooks {
 				}
 				want.Burns[a].Add(want.Burns[a], sev.Int)
 			}
+			r.keepQueues(want)
 			after := r.view()
 			r.compare(call, want, after)
 			r.invariants(call, after, want.Notes)
@@ -461,7 +489,7 @@ func (r *posRunner) hooks() *chain.Hooks {
 			r.res.Transitions++
 		},
 		AfterEnd: func(d *chain.Driver, ups []abci.ValidatorUpdate) {
-			want := posmodel.FromView(r.cur)
+			want := r.model()
 			want.SpecEndBlock(r.now)
 			after := r.view()
 			r.compare("EndBlock", want, after)
